@@ -72,6 +72,7 @@ func defsC20() []*ph.Def {
 		out = append(out, &ph.Def{Unknown: unknown, Help: "help", Root: ph.CmdDef{Name: "prog",
 			Opts: []ph.OptDef{
 				{Name: "host", Kind: ph.Str}, {Name: "port", Kind: ph.Int}, {Name: "min", Kind: ph.Int}, {Name: "max", Kind: ph.Int, Aliases: []string{"mox"}},
+				{Name: "x", Kind: ph.Bool}, {Name: "X", Kind: ph.Bool}, {Name: "Max", Kind: ph.Bool}, // names that differ only in case
 			},
 			Cmds: []*ph.CmdDef{{Name: "c1"}, {Name: "c2"}},
 		}})
@@ -106,6 +107,9 @@ func c20Observe(def *ph.Def, argv []string, compLine string) string {
 	}
 	p := ph.Build(def, c20Env)
 	defer p.Close()
+	if c20Cancelled {
+		p.CancelCtx()
+	}
 	o := p.Run(argv, true)
 	fmt.Fprintf(&b, "panic=%q hang=%v err=%q remaining=%q warnings=%q\n", firstLine(o.Panic), o.Hang, o.ParseErr, o.Remaining, o.Warnings)
 	keys := make([]string, 0, len(o.Vals))
@@ -125,12 +129,42 @@ func c20Observe(def *ph.Def, argv []string, compLine string) string {
 	return b.String()
 }
 
+// c20Cancelled: the context handed to Dispatch is already cancelled (set by the schedule unit only)
+var c20Cancelled bool
+
+// c20Schedules: whatever goroutines Parse / Dispatch start, the result does not depend on how they are scheduled -
+// every schedule with at most two deviations, under the controlled scheduler, with a cancelled and with a live context.
+func c20Schedules(c *RunCtx, def *ph.Def, argv []string, cancelled bool) (*explore.Violation, *explore.Explorer) {
+	base := ""
+	ex := &explore.Explorer{Budget: explore.Budget{K: 2, D: 0}, Deadline: c.Deadline, MaxExecs: 50000}
+	ex.Run = func(ch *explore.Chooser) string {
+		var obs string
+		c20Cancelled = cancelled
+		r := verifrt.Run(verifrt.Config{Chooser: ch, MaxSteps: 50000}, func() { obs = c20Observe(def, argv, "") })
+		c20Cancelled = false
+		if r.Status != verifrt.StatusOK {
+			obs += "status " + r.Status + ": " + r.Detail + "\n"
+		}
+		if len(ch.Prefix) == 0 {
+			base = obs
+			return ""
+		}
+		if obs != base {
+			return "result depends on the schedule of the goroutines the library starts: " + strings.Replace(strings.Replace(diffLine(base, obs), "default map order:", "default schedule:", 1), "other order:", "other schedule:", 1)
+		}
+		return ""
+	}
+	v := ex.Explore()
+	return v, ex
+}
+
 type c20Case struct {
 	Def      *ph.Def  `json:"def"`
 	Argv     []string `json:"argv"`
 	CompLine string   `json:"comp_line,omitempty"`
 	Choices  []int    `json:"choices"`
-	Timing   bool     `json:"timing,omitempty"` // the case compares a slow and a fast answer of the dynamic completion function
+	Timing   bool     `json:"timing,omitempty"`
+	Sched    int      `json:"sched,omitempty"` // 1: schedule exploration with a live context, 2: with a cancelled one // the case compares a slow and a fast answer of the dynamic completion function
 }
 
 // c20Timing: the completion list does not depend on how long a dynamic completion function takes to answer (a cold and
@@ -190,9 +224,9 @@ func c20Explore(c *RunCtx, def *ph.Def, argv []string, compLine string, d int) (
 func init() {
 	register(&Check{
 		ID:        "C20",
-		QuickSecs: 300, ThoroSecs: 1500,
+		QuickSecs: 900, ThoroSecs: 1500,
 		Rule: "exploration of hidden nondeterminism: Go's randomised map iteration is replaced (build-time instrumentation of all 22 map ranges of the library) by an explorer-chosen rotation of the sorted key order; for 16 definitions with >= 2 entries in every internal table (options, aliases, commands, suggestions, required options) x 58 argv and 21 COMP_LINE texts, four environment-bound options whose variables all hold unusable text, provoking several simultaneous diagnostics, " +
-			"every execution with <= d non-default rotations is run (bounded-deviation DFS over the range executions) and its complete observation vector (values, remaining, error text, warnings, dispatch result, help text, completion list) must be identical to the default-order run; additionally the same case is run twice with the native map order, and two completion lines are run with a dynamic completion function that answers after 1.5 s and at once (the list must not depend on it); " +
+			"every execution with <= d non-default rotations is run (bounded-deviation DFS over the range executions) and its complete observation vector (values, remaining, error text, warnings, dispatch result, help text, completion list) must be identical to the default-order run; additionally the same case is run twice with the native map order, and two completion lines are run with a dynamic completion function that answers after 1.5 s and at once (the list must not depend on it), and 16 Parse+Dispatch cases (live and already cancelled context) are run under the controlled scheduler for every schedule with <= 2 deviations of whatever goroutines the library starts; " +
 			"states = choice points visited, transitions = range executions, distinct_nontrivial = cases whose execution has at least one order choice point",
 		Assume: []string{"iteration orders are rotations of the sorted key order (every element comes first under some rotation); other permutations are not explored", "definitions and inputs outside the stated lists are not covered"},
 		Run: func(c *RunCtx) {
@@ -233,7 +267,34 @@ func init() {
 					}
 					continue
 				}
-				if u > len(units) || len(res.Violations) >= 3 {
+				if u == len(units)+1 {
+					// schedules of whatever goroutines the library starts (none at present: one execution each)
+					for _, argv := range [][]string{{}, {"c1"}, {"--unk1"}, {"build", "--target=t", "--arch=a", "--os=o"}} {
+						for _, def := range []*ph.Def{defs[0], defs[len(defs)-1]} {
+							for _, cancelled := range []bool{false, true} {
+								v, ex := c20Schedules(c, def, argv, cancelled)
+								res.Evaluations += ex.Stats.Execs
+								res.Traces += ex.Stats.Execs
+								res.count("schedule_cases", 1)
+								if ex.ToolError != "" {
+									res.ToolError = ex.ToolError
+									return
+								}
+								if v != nil {
+									sm := 1
+									if cancelled {
+										sm = 2
+									}
+									cc := c20Case{Def: def, Argv: argv, Choices: v.Choices, Sched: sm}
+									raw, _ := jsonMarshal(cc)
+									res.violate(Violation{Prop: "C20", Msg: fmt.Sprintf("%s  [%s argv=%q cancelled context=%v]", v.Msg, def.ConfigString(), argv, cancelled), Case: raw, Weight: len(argv)})
+								}
+							}
+						}
+					}
+					continue
+				}
+				if u > len(units)+1 || len(res.Violations) >= 3 {
 					break
 				}
 				if c.expired() {
@@ -292,6 +353,25 @@ func replayC20(raw json.RawMessage) (string, error) {
 	}
 	if cc.Timing {
 		return c20Timing(cc.Def, cc.CompLine), nil
+	}
+	if cc.Sched > 0 {
+		run := func(prefix []int) string {
+			var obs string
+			c20Cancelled = cc.Sched == 2
+			ch := &explore.Chooser{Prefix: prefix}
+			r := verifrt.Run(verifrt.Config{Chooser: ch, MaxSteps: 50000}, func() { obs = c20Observe(cc.Def, cc.Argv, "") })
+			c20Cancelled = false
+			if r.Status != verifrt.StatusOK {
+				obs += "status " + r.Status + ": " + r.Detail + "\n"
+			}
+			return obs
+		}
+		base, obs := run(nil), run(cc.Choices)
+		fmt.Printf("argv=%q choices=%v\n--- default schedule ---\n%s--- chosen schedule ---\n%s", cc.Argv, cc.Choices, base, obs)
+		if obs != base {
+			return "result depends on the schedule of the goroutines the library starts: " + diffLine(base, obs), nil
+		}
+		return "", nil
 	}
 	verifrt.SetOrderer(&explore.Chooser{})
 	base := c20Observe(cc.Def, cc.Argv, cc.CompLine)
